@@ -45,11 +45,11 @@ type Conn struct {
 	after  bool
 	parked int // readers currently blocked waiting for data
 
-	peer        *Conn // buffered pipe mode: writes are fed to the peer
-	NoLog       bool  // do not keep Written / write events (long streams)
-	ErrWithData bool  // deliver the final bytes and the end error in the same Read call (io.Reader allows it)
+	peer        *Conn           // buffered pipe mode: writes are fed to the peer
+	NoLog       bool            // do not keep Written / write events (long streams)
+	ErrWithData bool            // deliver the final bytes and the end error in the same Read call (io.Reader allows it)
 	OnWrite     func(total int) // called (without the lock) before Write returns, with the bytes written so far
-	BlockWrites bool  // the peer is not draining: Write blocks until the write deadline passes or Close
+	BlockWrites bool            // the peer is not draining: Write blocks until the write deadline passes or Close
 	Events      []Event
 	Written     []byte
 	WriteFailAt int // -1 = never; otherwise total offset at which writes fail
